@@ -261,6 +261,32 @@ func main() {
 	}
 	addBool("sweep_unregisters_by_coefficient", sweepDeletes, "the recycle sweep deletes from tablesByCoefficient (by the reset coefficient)")
 
+	// ---- structural facts: which configuration applies to a DMap (C09 default TTL, C10 limits)
+	dcfgGo := parse("internal/dmap/config.go")
+	loadFn := funcDecl(dcfgGo, "dmapConfig", "load")
+	cfgOK := false
+	if loadFn != nil {
+		t := strings.Join(strings.Fields(src(loadFn)), " ")
+		need := []string{
+			"c.maxIdleDuration = dc.MaxIdleDuration", "c.ttlDuration = dc.TTLDuration", "c.maxKeys = dc.MaxKeys",
+			"c.maxInuse = dc.MaxInuse", "c.lruSamples = dc.LRUSamples", "c.evictionPolicy = dc.EvictionPolicy", "c.engine = dc.Engine",
+			"cs, ok := dc.Custom[name]",
+			"c.maxIdleDuration = cs.MaxIdleDuration", "c.ttlDuration = cs.TTLDuration", "c.evictionPolicy = cs.EvictionPolicy",
+			"c.maxKeys = cs.MaxKeys", "c.maxInuse = cs.MaxInuse", "c.lruSamples = cs.LRUSamples",
+			"if c.engine == nil { c.engine = cs.Engine }",
+			"if c.evictionPolicy == config.LRUEviction {",
+			"if c.lruSamples == 0 { c.lruSamples = config.DefaultLRUSamples }",
+		}
+		cfgOK = true
+		for _, n := range need {
+			if !strings.Contains(t, n) {
+				cfgOK = false
+			}
+		}
+	}
+	addBool("dmap_config_custom_section_overrides_global", cfgOK,
+		"dmapConfig.load starts from the global DMaps settings, takes every setting of the DMap's custom section when there is one (the engine only when the global one is missing), and fills in the default LRU sample count according to the DMap's own policy")
+
 	// ---- structural facts: the compaction worker (C20, cluster level)
 	dcompGo := parse("internal/dmap/compaction.go")
 	doComp := funcDecl(dcompGo, "Service", "doCompaction")
@@ -323,6 +349,18 @@ func main() {
 		strings.Join(bypass, " | ") == "command == protocol.Internal.UpdateRouting | h.precond == nil | len(cmd.Args) == 0",
 		"the handler runs unguarded only for: "+strings.Join(bypass, " | "))
 	olricGo := parse("olric.go")
+	// the precondition is copied into every handler when the handler is registered (ServeMuxWrapper.HandleFunc): it has to be
+	// set on the server before the command handlers are registered
+	newFn := funcDecl(olricGo, "", "New")
+	precondFirst := false
+	if newFn != nil {
+		t := strings.Join(strings.Fields(src(newFn)), " ")
+		i1 := strings.Index(t, "srv.SetPreConditionFunc(db.preconditionFunc)")
+		i2 := strings.Index(t, "db.registerCommandHandlers()")
+		precondFirst = i1 >= 0 && i2 >= 0 && i1 < i2
+	}
+	addBool("precondition_set_before_handlers_are_registered", precondFirst,
+		"olric.New calls srv.SetPreConditionFunc(db.preconditionFunc) before db.registerCommandHandlers()")
 	addBool("is_operable_checks_member_quorum", index(callsTo(funcDecl(olricGo, "Olric", "isOperable")), "CheckMemberCountQuorum") >= 0,
 		"olric.isOperable (the precondition of every handler) calls rt.CheckMemberCountQuorum")
 	dmapGo := parse("internal/dmap/dmap.go")
